@@ -2276,3 +2276,64 @@ def _run_two_threads(w: World, arow: dict[str, Any], brow: dict[str, Any], k1: i
         HOOKS.on_statement = None
         w.processor._handle_message = orig_handle  # type: ignore[method-assign]
     return st
+
+
+
+def two_worker_default_run(workload: str, j_sym: Any, inject_at: Any = None, inject: Callable[[World], None] | None = None,
+                           post: Callable[[World, dict[str, Any], Any], tuple[str, Any] | None] | None = None, prop: str = "C09", compare: bool = True) -> bool:
+    """C09 with two worker processes and the DEFAULT processor configuration on the second one:
+    worker A handles the j-th message, commits, and dies before the acknowledgement; everything else
+    - including the redelivery of that message once its lock lapses - is handled by worker B, whose
+    duplicate filter was hydrated before A's commit.  No committed message may enter a handler again."""
+    with hx.Path("two_worker_default:" + workload) as P:
+        with hx.native():
+            ref = reference(workload)
+            w = World(dedup=True, lock_seconds=1.0)
+            try:
+                wf = WORKLOADS[workload]()
+                w.submit(wf)
+                w.second_worker()
+                step = 0
+                died = None
+                injected = False
+                while step < MAX_STEPS:
+                    if not w.make_visible():
+                        break
+                    now = stubs.CLOCK.peek_ms()
+                    vis = [r for r in w.rows() if r["attempts"] < w.queue_max_attempts and r["deliver_ms"] // 1000 <= now // 1000
+                           and (r["lock_ms"] is None or r["lock_ms"] // 1000 < now // 1000)]
+                    if not vis:
+                        break
+                    vis.sort(key=lambda r: (r["deliver_at"], r["id"]))
+                    if inject is not None and not injected and hx.decide_eq(inject_at, step):
+                        injected = True
+                        inject(w)
+                        continue
+                    if died is None and hx.decide_eq(j_sym, step):
+                        died = (step, vis[0]["message_type"])
+                        w.active = "A"
+                        w.deliver(vis[0]["id"], ack=False)  # handled and committed by A, never acknowledged
+                        w.active = "B"
+                    else:
+                        w.active = "B" if died is not None else "A"
+                        w.deliver(vis[0]["id"])
+                    step += 1
+                snap = w.snapshot()
+                summ = summarize(snap)
+                if died is None:
+                    return True
+                P.reached("%s step %d" % (workload, died[0]), {"workload": workload, "A_died_after_handling": died[1], "at_step": died[0]})
+                info = {"workload": workload, "worker_A_died_after_handling": died[1], "at_step": died[0], "final": summ["stages"], "workflow": summ["workflow"], "injected": [1] if injected else []}
+                if post is not None:
+                    bad = post(w, snap, info)
+                    if bad is not None:
+                        return P.fail("%s/two_workers/%s/%s" % (prop, workload, bad[0]), {**info, "detail": bad[1]})
+                bad = post_handled_once(w, snap, {})
+                if bad is not None:
+                    return P.fail("%s/two_workers/%s/%s" % (prop, workload, bad[0]), {**info, "detail": bad[1]})
+                rs = ref["summary"]
+                if compare and (summ["workflow"] != rs["workflow"] or summ["stages"] != rs["stages"]):
+                    return P.fail("C09/two_workers/%s/outcome_differs/%s" % (workload, state_sig(summ)), {**info, "expected": rs["stages"]})
+                return True
+            finally:
+                w.close()
